@@ -2061,6 +2061,11 @@ class Block(_IRNode, IRWithUses, IRWithName):
             context[arg] = other_arg
         # Add self to the context so Operations can check for identical parents
         context[self] = other
+        # Register the results up front: in graph regions a value can be used before
+        # the operation defining it
+        for op, other_op in zip(self.ops, other.ops):
+            for result, other_result in zip(op.results, other_op.results):
+                context[result] = other_result
         if not all(
             op.is_structurally_equivalent(other_op, context)
             for op, other_op in zip(self.ops, other.ops)
@@ -2697,6 +2702,13 @@ class Region(_IRNode):
         # the corrects successors
         for block, other_block in zip(self.blocks, other.blocks):
             context[block] = other_block
+        # likewise register all values, a block may use values defined in a later block
+        for block, other_block in zip(self.blocks, other.blocks):
+            for arg, other_arg in zip(block.args, other_block.args):
+                context[arg] = other_arg
+            for op, other_op in zip(block.ops, other_block.ops):
+                for result, other_result in zip(op.results, other_op.results):
+                    context[result] = other_result
         if not all(
             block.is_structurally_equivalent(other_block, context)
             for block, other_block in zip(self.blocks, other.blocks)
